@@ -253,9 +253,10 @@ func (p *FloatingIPPlugin) Release(r *ReleaseRequest) error {
 		}); err != nil {
 			return fmt.Errorf("UnAssignIP nodeName %s, ip %s: %v", fip.NodeName, fip.IP.String(), err)
 		}
-		// for tapp and sts pod, we need to clean its node attr and uid
-		if err := p.reserveIP(k.KeyInDB, k.KeyInDB, "after UnAssignIP "+caller); err != nil {
-			return err
+		// for tapp and sts pod, we need to clean its node attr and uid. Only of this ip: other ips of the key are
+		// still assigned to their node
+		if err := p.ipam.UpdateAttr(k.KeyInDB, r.IP, floatingip.Attr{Policy: constant.ReleasePolicy(fip.Policy)}); err != nil {
+			return fmt.Errorf("clean node and uid of %s after UnAssignIP %s: %v", r.IP.String(), caller, err)
 		}
 	}
 	if err := p.ipam.Release(k.KeyInDB, r.IP); err != nil {
